@@ -242,14 +242,24 @@ fn dec_slice<T: Deserializable + Show>(bytes: &[u8]) -> String {
     })))
 }
 
-struct Out { lines: Vec<String>, dist: BTreeMap<String, usize> }
+/// Lines are streamed: a decoding case is printed as "<case> => " BEFORE the library is called, so that a
+/// process abort inside the library (allocation failure is not a panic) leaves the culprit as the last line.
+struct Out { count: usize, dist: BTreeMap<String, usize> }
 impl Out {
-    fn push(&mut self, class: &str, line: String) { *self.dist.entry(class.to_string()).or_insert(0) += 1; self.lines.push(line); }
+    fn push(&mut self, class: &str, line: String) { *self.dist.entry(class.to_string()).or_insert(0) += 1; self.count += 1; println!("{}", line); }
+    fn dec<T: Deserializable + Show>(&mut self, class: &str, ty: &str, bytes: &[u8]) {
+        use std::io::Write;
+        *self.dist.entry(class.to_string()).or_insert(0) += 1;
+        self.count += 1;
+        print!("dec {} {} => ", ty, hex_bytes(bytes));
+        std::io::stdout().flush().unwrap();
+        println!("{}", dec_slice::<T>(bytes));
+    }
 }
 
 /// decoding cases derived from one valid encoding: exact, trailing bytes, truncations, single-byte mutations
 fn dec_cases<T: Deserializable + Show>(o: &mut Out, r: &mut Rng, ty: &str, bytes: &[u8], muts: usize) {
-    let mut one = |o: &mut Out, class: &str, b: &[u8]| o.push(class, format!("dec {} {} => {}", ty, hex_bytes(b), dec_slice::<T>(b)));
+    let one = |o: &mut Out, class: &str, b: &[u8]| o.dec::<T>(class, ty, b);
     one(o, "dec-exact", bytes);
     let mut t = bytes.to_vec();
     let k = 1 + r.below(3) as usize;
@@ -437,7 +447,7 @@ fn mk_proof(r: &mut Rng, big: bool) -> Proof {
     let width = t.width();
     let lag = if t.is_multi_segment() && r.chance(1, 2) { 1 + r.below(20) as usize } else { 0 };
     let ood = mk_ood::<F64>(&mut mk, if big { width } else { width.min(6) }, 1, lag, 1 + r.below(8) as usize);
-    let fri = if r.chance(1, 4) { FriProof::new_dummy() } else { let (ll, ff, rd) = (3 + r.below(4) as u32, *r.pick(&[2, 4]), *r.pick(&[0, 1, 3, 7])); mk_fri::<F64>(r, ll, 4, ff, rd, nq) };
+    let fri = if r.chance(1, 4) { FriProof::new_dummy() } else { let (ll, ff, rd) = (3 + r.below(4) as u32, *r.pick(&[2, 4]), *r.pick(&[0, 1, 3, 7])); catch(AssertUnwindSafe(|| mk_fri::<F64>(r, ll, 4, ff, rd, nq))).unwrap_or_else(|_| FriProof::new_dummy()) };
     Proof {
         context,
         num_unique_queries: r.next_u64() as u8,
@@ -455,7 +465,7 @@ fn mk_proof(r: &mut Rng, big: bool) -> Proof {
 fn corr(seed: u64, n: usize) {
     let mut r = Rng::new(seed);
     let r = &mut r;
-    let mut o = Out { lines: vec![], dist: BTreeMap::new() };
+    let mut o = Out { count: 0, dist: BTreeMap::new() };
     let o = &mut o;
     let reps = (n / 40).max(2);
 
@@ -463,7 +473,7 @@ fn corr(seed: u64, n: usize) {
     for v in usize_boundaries() { enc_dec::<usize>(o, r, "usize", &format!("{:x}", v), &(v as usize), 6); }
     for _ in 0..reps * 4 { let v = rand_size(r); enc_dec::<usize>(o, r, "usize", &format!("{:x}", v), &(v as usize), 2); }
     // every first byte (length class) with random continuation: canonical and non-canonical encodings
-    for b in 0..=255u8 { let mut bs = vec![b]; let k = r.below(10) as usize; bs.extend(r.bytes(k)); o.push("dec-random", format!("dec usize {} => {}", hex_bytes(&bs), dec_slice::<usize>(&bs))); }
+    for b in 0..=255u8 { let mut bs = vec![b]; let k = r.below(10) as usize; bs.extend(r.bytes(k)); o.dec::<usize>("dec-random", "usize", &bs); }
 
     // --- fixed-width integers, bool
     for v in [0u64, 1, 0x7f, 0x80, 0xff] { enc_dec::<u8>(o, r, "u8", &format!("{:x}", v), &(v as u8), 1); }
@@ -474,14 +484,14 @@ fn corr(seed: u64, n: usize) {
     for _ in 0..reps { let v = r.next_u128(); enc_dec::<u128>(o, r, "u128", &format!("{:x}", v), &v, 0); let w = r.next_u64(); enc_dec::<u64>(o, r, "u64", &format!("{:x}", w), &w, 0); }
     enc_dec::<Bo>(o, r, "bool", "0", &Bo(false), 0);
     enc_dec::<Bo>(o, r, "bool", "1", &Bo(true), 0);
-    for b in [2u8, 3, 0x7f, 0x80, 0xff] { o.push("dec-malformed", format!("dec bool {:02x} => {}", b, dec_slice::<Bo>(&[b]))); }
+    for b in [2u8, 3, 0x7f, 0x80, 0xff] { o.dec::<Bo>("dec-malformed", "bool", &[b]); }
 
     // --- Option / Vec / array / tuple / String / BTreeMap / BTreeSet, nested
     for v in [None, Some(0u32), Some(u32::MAX), Some(0x0100)] {
         let a = match v { None => "N".to_string(), Some(x) => format!("S{:x}", x) };
         enc_dec::<Option<u32>>(o, r, "opt_u32", &a, &v, 3);
     }
-    for b in [2u8, 255] { let bs = [b, 1, 2, 3, 4]; o.push("dec-malformed", format!("dec opt_u32 {} => {}", hex_bytes(&bs), dec_slice::<Option<u32>>(&bs))); }
+    for b in [2u8, 255] { let bs = [b, 1, 2, 3, 4]; o.dec::<Option<u32>>("dec-malformed", "opt_u32", &bs); }
     for len in [0usize, 1, 2, 63, 64, 127, 128, 129, 300] {
         let v: Vec<u16> = (0..len).map(|_| r.next_u64() as u16).collect();
         enc_dec::<Vec<u16>>(o, r, "vec_u16", &hexlist(&v), &v, 3);
@@ -499,13 +509,13 @@ fn corr(seed: u64, n: usize) {
         let mut bs = (big as usize).to_bytes();
         let k = r.below(6) as usize;
         bs.extend(r.bytes(k));
-        o.push("dec-hostile-len", format!("dec vec_vec_u8 {} => {}", hex_bytes(&bs), dec_slice::<Vec<Vec<u8>>>(&bs)));
-        o.push("dec-hostile-len", format!("dec vec_u16 {} => {}", hex_bytes(&bs), dec_slice::<Vec<u16>>(&bs)));
-        o.push("dec-hostile-len", format!("dec string {} => {}", hex_bytes(&bs), dec_slice::<String>(&bs)));
-        o.push("dec-hostile-len", format!("dec map_u32_bytes {} => {}", hex_bytes(&bs), dec_slice::<BTreeMap<u32, Vec<u8>>>(&bs)));
-        o.push("dec-hostile-len", format!("dec set_u64 {} => {}", hex_bytes(&bs), dec_slice::<BTreeSet<u64>>(&bs)));
+        o.dec::<Vec<Vec<u8>>>("dec-hostile-len", "vec_vec_u8", &bs);
+        o.dec::<Vec<u16>>("dec-hostile-len", "vec_u16", &bs);
+        o.dec::<String>("dec-hostile-len", "string", &bs);
+        o.dec::<BTreeMap<u32, Vec<u8>>>("dec-hostile-len", "map_u32_bytes", &bs);
+        o.dec::<BTreeSet<u64>>("dec-hostile-len", "set_u64", &bs);
         let mut ob = vec![1u8]; ob.extend(&bs);
-        o.push("dec-hostile-len", format!("dec opt_vec_u8 {} => {}", hex_bytes(&ob), dec_slice::<Option<Vec<u8>>>(&ob)));
+        o.dec::<Option<Vec<u8>>>("dec-hostile-len", "opt_vec_u8", &ob);
     }
     for v in [None, Some(vec![]), Some(vec![0u8]), Some(r.bytes(127)), Some(r.bytes(128)), Some(r.bytes(16384))] {
         let a = match &v { None => "N".to_string(), Some(b) => format!("S {}", hex_bytes(b)) };
@@ -516,7 +526,7 @@ fn corr(seed: u64, n: usize) {
         enc_dec::<String>(o, r, "string", &hex_bytes(s.as_bytes()), &s, 6);
     }
     for bad in [vec![1u8, 0x80], vec![2, 0xc3, 0x28], vec![3, 0xed, 0xa0, 0x80], vec![4, 0xf4, 0x90, 0x80, 0x80], vec![2, 0xc0, 0xaf], vec![1, 0xff]] {
-        o.push("dec-malformed", format!("dec string {} => {}", hex_bytes(&bad), dec_slice::<String>(&bad)));
+        o.dec::<String>("dec-malformed", "string", &bad);
     }
     for _ in 0..reps {
         let v: [u16; 4] = [r.next_u64() as u16, 0, 0xffff, r.next_u64() as u16];
@@ -533,10 +543,10 @@ fn corr(seed: u64, n: usize) {
     {
         let mut bs = 3usize.to_bytes();
         for (k, v) in [(9u32, vec![1u8]), (2, vec![]), (9, vec![7, 7])] { bs.extend(k.to_bytes()); bs.extend(v.to_bytes()); }
-        o.push("dec-malformed", format!("dec map_u32_bytes {} => {}", hex_bytes(&bs), dec_slice::<BTreeMap<u32, Vec<u8>>>(&bs)));
+        o.dec::<BTreeMap<u32, Vec<u8>>>("dec-malformed", "map_u32_bytes", &bs);
         let mut bs = 4usize.to_bytes();
         for k in [5u64, 1, 5, 3] { bs.extend(k.to_bytes()); }
-        o.push("dec-malformed", format!("dec set_u64 {} => {}", hex_bytes(&bs), dec_slice::<BTreeSet<u64>>(&bs)));
+        o.dec::<BTreeSet<u64>>("dec-malformed", "set_u64", &bs);
     }
 
     // --- field elements (canonical residues; the reader must reject >= M), extensions, digests
@@ -545,9 +555,9 @@ fn corr(seed: u64, n: usize) {
         let v = f62v(r); enc_dec::<F62>(o, r, "f62", &format!("{:x}", v), &F62::new(v), 2);
         let v = f128v(r); enc_dec::<F128>(o, r, "f128", &format!("{:x}", v), &F128::new(v), 2);
     }
-    for v in [M64, M64 + 1, u64::MAX, M64 - 1] { let b = v.to_le_bytes(); o.push("dec-noncanonical", format!("dec f64 {} => {}", hex_bytes(&b), dec_slice::<F64>(&b))); }
-    for v in [M62, M62 + 1, u64::MAX, 1 << 62, M62 - 1] { let b = v.to_le_bytes(); o.push("dec-noncanonical", format!("dec f62 {} => {}", hex_bytes(&b), dec_slice::<F62>(&b))); }
-    for v in [M128, M128 + 1, u128::MAX, M128 - 1] { let b = v.to_le_bytes(); o.push("dec-noncanonical", format!("dec f128 {} => {}", hex_bytes(&b), dec_slice::<F128>(&b))); }
+    for v in [M64, M64 + 1, u64::MAX, M64 - 1] { let b = v.to_le_bytes(); o.dec::<F64>("dec-noncanonical", "f64", &b); }
+    for v in [M62, M62 + 1, u64::MAX, 1 << 62, M62 - 1] { let b = v.to_le_bytes(); o.dec::<F62>("dec-noncanonical", "f62", &b); }
+    for v in [M128, M128 + 1, u128::MAX, M128 - 1] { let b = v.to_le_bytes(); o.dec::<F128>("dec-noncanonical", "f128", &b); }
     for _ in 0..reps {
         let (a, b, c) = (f64v(r), f64v(r), f64v(r));
         enc_dec(o, r, "q64", &format!("{:x} {:x}", a, b), &QuadExtension::new(F64::new(a), F64::new(b)), 2);
@@ -564,14 +574,14 @@ fn corr(seed: u64, n: usize) {
     }
     { // ElementDigest reader reduces non-canonical limbs instead of rejecting them
         let mut b = vec![]; for v in [M64, u64::MAX, M64 + 5, 3] { b.extend(v.to_le_bytes()); }
-        o.push("dec-noncanonical", format!("dec edig {} => {}", hex_bytes(&b), dec_slice::<EDg>(&b)));
+        o.dec::<EDg>("dec-noncanonical", "edig", &b);
     }
 
     // --- FieldExtension / ProofOptions: every byte value of every field position
     for v in 1..=3u64 { enc_dec(o, r, "fe", &format!("{}", v), &fe_of(v), 0); }
-    for b in [0u8, 4, 5, 128, 255] { o.push("dec-malformed", format!("dec fe {:02x} => {}", b, dec_slice::<FieldExtension>(&[b]))); }
+    for b in [0u8, 4, 5, 128, 255] { o.dec::<FieldExtension>("dec-malformed", "fe", &[b]); }
     let good = ProofOptions::new(28, 8, 16, FieldExtension::Quadratic, 4, 31).to_bytes();
-    for pos in 0..6 { for b in 0..=255u8 { let mut m = good.clone(); m[pos] = b; o.push("dec-po-sweep", format!("dec po {} => {}", hex_bytes(&m), dec_slice::<ProofOptions>(&m))); } }
+    for pos in 0..6 { for b in 0..=255u8 { let mut m = good.clone(); m[pos] = b; o.dec::<ProofOptions>("dec-po-sweep", "po", &m); } }
     for i in 0..reps * 6 {
         let a = rand_po_args(r, i % 3 != 0);
         match mk_po(&a) {
@@ -602,11 +612,11 @@ fn corr(seed: u64, n: usize) {
         o.push("enc", format!("enc ti_meta {:x} {:x} {} => {}", w, l, hex_bytes(&meta), res.map(|b| hex_bytes(&b)).unwrap_or("panic".into())));
     }
     let good = TraceInfo::new_multi_segment(100, 50, 7, 1 << 10, vec![9, 8, 7]).to_bytes();
-    for pos in 0..6 { for b in 0..=255u8 { let mut m = good.clone(); m[pos] = b; o.push("dec-ti-sweep", format!("dec ti {} => {}", hex_bytes(&m), dec_slice::<TraceInfo>(&m))); } }
+    for pos in 0..6 { for b in 0..=255u8 { let mut m = good.clone(); m[pos] = b; o.dec::<TraceInfo>("dec-ti-sweep", "ti", &m); } }
     let good = TraceInfo::new(200, 8).to_bytes();
-    for pos in 1..3 { for b in 0..=255u8 { let mut m = good.clone(); m[pos] = b; o.push("dec-ti-sweep", format!("dec ti {} => {}", hex_bytes(&m), dec_slice::<TraceInfo>(&m))); } }
+    for pos in 1..3 { for b in 0..=255u8 { let mut m = good.clone(); m[pos] = b; o.dec::<TraceInfo>("dec-ti-sweep", "ti", &m); } }
     for bs in [vec![1u8, 0, 0, 200, 0, 0], vec![1, 0, 0, 64, 0, 0], vec![1, 0, 0, 63, 0, 0], vec![255, 0, 0, 3, 0, 0], vec![254, 1, 0, 3, 0, 0], vec![254, 2, 1, 3, 0, 0], vec![3, 2, 0, 3, 0, 0], vec![3, 0, 1, 3, 0, 0]] {
-        o.push("dec-ti-boundary", format!("dec ti {} => {}", hex_bytes(&bs), dec_slice::<TraceInfo>(&bs)));
+        o.dec::<TraceInfo>("dec-ti-boundary", "ti", &bs);
     }
 
     // --- Context
@@ -625,7 +635,7 @@ fn corr(seed: u64, n: usize) {
         }
     }
     for bs in [vec![1u8, 0, 0, 3, 0, 0, 0, 1, 2, 0, 1, 2, 0], vec![1, 0, 0, 3, 0, 0, 1, 5, 1, 2, 0, 1, 2, 0], vec![1, 0, 0, 3, 0, 0, 255, 5, 1, 2, 0, 1, 2, 0]] {
-        o.push("dec-malformed", format!("dec ctx {} => {}", hex_bytes(&bs), dec_slice::<Context>(&bs)));
+        o.dec::<Context>("dec-malformed", "ctx", &bs);
     }
 
     // --- Commitments / Queries / OodFrame / FriProof built with the real constructors
@@ -642,7 +652,8 @@ fn corr(seed: u64, n: usize) {
         let q = mk_qry_f64(r, nq, cols, &nodes);
         enc_dec(o, r, "qry", &args_qry(&q), &q, 6);
     }
-    { let q = mk_qry_q128(r, 255, 255); enc_dec(o, r, "qry", &args_qry(&q), &q, 4); }
+    // (the 2 MB 255x255 quadratic-f128 table is exercised by the falsifier only: the extracted list functions are not tail recursive)
+    { let q = mk_qry_q128(r, 100, 100); enc_dec(o, r, "qry", &args_qry(&q), &q, 4); }
     {
         let mut k = 0u64;
         let mut mk = || { k += 1; F64::new(k) };
@@ -670,7 +681,7 @@ fn corr(seed: u64, n: usize) {
         enc_dec(o, r, "fri", &args_fri(&p), &p, 12);
         // a layer with zero value bytes is rejected by the reader
         let bs = vec![1u8, 0, 0, 0, 0, 0, 0, 0, 0, 0, 0, 0];
-        o.push("dec-malformed", format!("dec fri {} => {}", hex_bytes(&bs), dec_slice::<FriProof>(&bs)));
+        o.dec::<FriProof>("dec-malformed", "fri", &bs);
     }
 
     // --- whole proofs (public struct; components from the real constructors / the real FRI prover)
@@ -687,23 +698,21 @@ fn corr(seed: u64, n: usize) {
     for _ in 0..reps * 4 {
         let n = r.below(40) as usize;
         let bs = r.bytes(n);
-        let h = hex_bytes(&bs);
-        o.push("dec-random", format!("dec po {} => {}", h, dec_slice::<ProofOptions>(&bs)));
-        o.push("dec-random", format!("dec ti {} => {}", h, dec_slice::<TraceInfo>(&bs)));
-        o.push("dec-random", format!("dec ctx {} => {}", h, dec_slice::<Context>(&bs)));
-        o.push("dec-random", format!("dec qry {} => {}", h, dec_slice::<Queries>(&bs)));
-        o.push("dec-random", format!("dec ood {} => {}", h, dec_slice::<OodFrame>(&bs)));
-        o.push("dec-random", format!("dec fri {} => {}", h, dec_slice::<FriProof>(&bs)));
-        o.push("dec-random", format!("dec com {} => {}", h, dec_slice::<Commitments>(&bs)));
-        o.push("dec-random", format!("dec proof {} => {}", h, dec_slice::<Proof>(&bs)));
-        o.push("dec-random", format!("dec string {} => {}", h, dec_slice::<String>(&bs)));
-        o.push("dec-random", format!("dec vec_opt_u64 {} => {}", h, dec_slice::<Vec<Option<u64>>>(&bs)));
-        o.push("dec-random", format!("dec map_u32_bytes {} => {}", h, dec_slice::<BTreeMap<u32, Vec<u8>>>(&bs)));
+        o.dec::<ProofOptions>("dec-random", "po", &bs);
+        o.dec::<TraceInfo>("dec-random", "ti", &bs);
+        o.dec::<Context>("dec-random", "ctx", &bs);
+        o.dec::<Queries>("dec-random", "qry", &bs);
+        o.dec::<OodFrame>("dec-random", "ood", &bs);
+        o.dec::<FriProof>("dec-random", "fri", &bs);
+        o.dec::<Commitments>("dec-random", "com", &bs);
+        o.dec::<Proof>("dec-random", "proof", &bs);
+        o.dec::<String>("dec-random", "string", &bs);
+        o.dec::<Vec<Option<u64>>>("dec-random", "vec_opt_u64", &bs);
+        o.dec::<BTreeMap<u32, Vec<u8>>>("dec-random", "map_u32_bytes", &bs);
     }
 
-    for l in &o.lines { println!("{}", l); }
     let d = o.dist.iter().map(|(k, v)| format!("{}={}", k, v)).collect::<Vec<_>>().join(" ");
-    eprintln!("dist {} total={}", d, o.lines.len());
+    eprintln!("dist {} total={}", d, o.count);
 }
 
 // --------------------------------------------------------------------------------------------- falsifier
@@ -711,7 +720,7 @@ struct Fails { n: usize, evals: usize }
 impl Fails {
     fn fail(&mut self, what: &str, input: &str, expected: &str, actual: &str) {
         self.n += 1;
-        let clip = |s: &str| if s.len() > 400 { format!("{}..({} chars)", &s[..400], s.len()) } else { s.to_string() };
+        let clip = |s: &str| if s.chars().count() > 400 { format!("{}..({} bytes)", s.chars().take(400).collect::<String>(), s.len()) } else { s.to_string() };
         println!("{{\"what\":{},\"input\":{},\"expected\":{},\"actual\":{}}}", jstr(what), jstr(&clip(input)), jstr(&clip(expected)), jstr(&clip(actual)));
     }
 }
@@ -882,7 +891,7 @@ fn falsify(seed: u64, n: usize) {
 }
 
 fn main() {
-    silence_panics();
+    if std::env::var("C12_VERBOSE").is_err() { silence_panics(); }
     let a: Vec<String> = std::env::args().collect();
     let seed: u64 = a.get(2).and_then(|s| s.parse().ok()).unwrap_or(1);
     let n: usize = a.get(3).and_then(|s| s.parse().ok()).unwrap_or(400);
